@@ -190,3 +190,18 @@ Lemma sum_lt_pow a b s w : a < 2 ^ s -> b < 2 ^ w -> a + b * 2 ^ s < 2 ^ (s + w)
 Proof.
   intros Ha Hb. rewrite N.pow_add_r. pose proof (pow2_pos s). pose proof (pow2_pos w). nia.
 Qed.
+
+Lemma lor_lt_pow2 a b n : a < 2 ^ n -> b < 2 ^ n -> N.lor a b < 2 ^ n.
+Proof.
+  intros Ha Hb.
+  assert (E : N.lor a b = (N.lor a b) mod 2 ^ n).
+  { apply N.bits_inj. intros m.
+    destruct (N.lt_ge_cases m n) as [Hm|Hm].
+    - now rewrite N.mod_pow2_bits_low.
+    - rewrite N.mod_pow2_bits_high by exact Hm.
+      rewrite N.lor_spec.
+      rewrite <- (N.mod_small a (2 ^ n) Ha), <- (N.mod_small b (2 ^ n) Hb).
+      now rewrite !N.mod_pow2_bits_high by exact Hm. }
+  rewrite E. apply N.mod_lt. pose proof (pow2_pos n). lia.
+Qed.
+
